@@ -98,6 +98,26 @@ func c03R1(c *Ctx, rule string) {
 	ls := p.Locksets()
 	held, _ := lockHeldByClass(ls.MustHeld(flagStore), a.writingM)
 	c.Check(held, rule, "write mutex held while the closing frame is built and sent", c.at(flagStore), "writingM ∈ must-hold set (all callers with active=true hold it)", "the closing frame is numbered without the write mutex: a concurrent Write can take the same number or be numbered after the close")
+	// Stream.Close is an active close, always: whatever the stream did before (an accepted stream that never wrote a byte
+	// exists on the peer all the same), the peer learns of a close only from the closing frame
+	if sc := c.need(rule, "internal/multiplex", "Stream.Close"); sc != nil {
+		n, okActive := 0, true
+		p.unitInstrs(sc, func(i ssa.Instruction) {
+			call, ok := i.(*ssa.Call)
+			if !ok || call.Call.StaticCallee() != cs || len(call.Call.Args) < 3 {
+				return
+			}
+			n++
+			if b, isK := boolConst(call.Call.Args[2]); !isK || !b {
+				okActive = false
+			}
+		})
+		if n == 0 {
+			c.Undecided(rule, "Stream.Close closes actively", c.atFn(sc), "no call of closeStream found in Stream.Close")
+		} else {
+			c.Check(okActive, rule, "Stream.Close closes actively", c.atFn(sc), "closeStream(s, true) unconditionally", "Stream.Close does not always take the active path (the flag passed to closeStream is not the constant true): on the paths where it is false the stream is closed locally and the peer is never told — its reader blocks for ever")
+		}
+	}
 	// a closing frame always carries at least one byte of padding: the encoder refuses an empty payload (C04.R6), and a
 	// refused closing frame leaves the stream/session marked closed with nothing sent and nothing torn down
 	for _, f := range p.FuncsOfPkg("internal/multiplex") {
